@@ -117,7 +117,16 @@ def sib_merge_cmp(ctx, prog):
 
 sib_merge_cmp.rule_id = "C17.SIB-merge-cmp"
 
-RULES = [guard_full, wmc_user, pair, unequal_row, wmw_force_stale, sib_merge_cmp]
+def dtab_rewire_full(ctx, prog):
+    R = "C17.DTAB-rewire"
+    ctx.rule(R, "per-key operators: the whole rewiring table (the lhs-change node returns (), so it never wakes the "
+                "per-key nodes of unchanged keys)")
+    mapops.rewire(ctx, prog, R)
+
+
+dtab_rewire_full.rule_id = "C17.DTAB-rewire"
+
+RULES = [guard_full, wmc_user, pair, unequal_row, wmw_force_stale, sib_merge_cmp, dtab_rewire_full]
 
 # control signature of the bookkeeping effects this property depends on (rules/ctrlsig.py)
 from .ctrlsig import make_rule as _ctrl_rule  # noqa: E402
